@@ -24,7 +24,7 @@ ASSUMPTIONS = [
 
 
 def generate(rng, tier):
-    return gen.gen_case(rng, {"p_demux": 0.12, "p_mixed_pair": 0.02})
+    return gen.gen_case(rng, {"p_demux": 0.12, "p_mixed_pair": 0.02, "p_devnull": 0.05})
 
 
 def evaluate(case, ctx):
@@ -40,7 +40,7 @@ def evaluate(case, ctx):
     hv = C.hang_violations(par, "par")
     if hv:
         return hv
-    if par.exit != 0 and C.is_buffer_too_small(par):
+    if par.exit != 0 and C.is_buffer_too_small(par, case):
         raise engine.Discard("buffer-too-small")
     viols = C.compare_with_reference(case, ref, par)
     # bounded liveness: once the starvation window is over (faults have stopped), the run must
